@@ -72,6 +72,9 @@ func (c09) Gen(seed uint64, run int, tier, variant string) interface{} {
 		p.NbTasks = r.Pick([]int{1, 2, 3})
 	case 2:
 		p.NbTasks = p.N + r.Pick([]int{-1, 0, 1})
+		if p.NbTasks > 1024 {
+			p.NbTasks = 1024 // the property quantifies over NbTasks <= 1024 (and each split spawns up to 64 goroutines)
+		}
 	case 3:
 		p.NbTasks = r.Pick([]int{63, 64, 65, 1024})
 	default:
